@@ -1,7 +1,7 @@
 # Per-property configuration of bin/vcheck. One entry per claimed property.
 CHECKS = {}
 NOT_APPLICABLE = {}   # property id -> reason (only for properties that are not claimed)
-HOOK_COMMITS = ["591d0aa", "cd8c611", "81459e8"]     # /repo commits that add build-tag-guarded hooks
+HOOK_COMMITS = ["591d0aa", "cd8c611", "81459e8", "b3ade5a"]     # /repo commits that add build-tag-guarded hooks
 MANIFEST_NOTES = ("Every check is `bin/vcheck <id> quick|thorough`; VERIF_SEED selects the seeded case lists. "
                   "Verdicts are three-valued (VIOLATION / held / INCONCLUSIVE); known findings are in known_findings.json.")
 
@@ -121,15 +121,15 @@ CHECKS["C16"] = {
 CHECKS["C13"] = {
     "pkg": "./c13", "run": "^TestC13$", "level": "exploration",
     "technique": "Go race detector (deciding) + porcupine per-id linearizability + search-item liveness intervals + quiescent dump invariants + structural deadlock watchdog, over seeded stress runs with scheduling noise at index yield points",
-    "level_text": "Stress monitor of one index.Hnsw under -race: single-writer/many-readers and many-writers workloads (4..24 ids, up to 24 goroutines, GOMAXPROCS 2 and 16, seeded Gosched/sleep at the index's yield points). Every run is judged by the race detector, by porcupine on the recorded Insert/Remove/Get history partitioned by id, by liveness intervals of every item each search returned (with bit-exact score), by Len/contents/structural invariants and the C01 search oracle at quiescence, and by a structural deadlock criterion.",
+    "level_text": "Stress monitor of one index.Hnsw under -race: single-writer/many-readers and many-writers workloads (4..24 ids, up to 24 goroutines, GOMAXPROCS 2 and 16, seeded Gosched/sleep at the index's yield points). Every run is judged by the race detector, by porcupine on the recorded Insert/Remove/Get history partitioned by id, by liveness intervals of every item each search returned (with bit-exact score), by Len/contents/structural invariants and the C01 search oracle at quiescence, and by a structural deadlock criterion. Every fifth run uses only one or two ids (the index is emptied again and again), and every tenth run is a series of 1500 (quick) / 6000 (thorough) duels: 2-4 goroutines insert and remove the same one or two ids on an empty or one-item index, after which the quiescent invariants (entry point live and stored iff the index is non-empty, Len, contents, C01 search oracle) are checked.",
     "level_note": "Interleavings are whatever the scheduler and the injected noise produced (not replayable); a clean race-detector run means no race was observed in these runs. checkptr is disabled in race builds because the SIMD wrappers pass the length as a fake pointer.",
     "shards": {"quick": 8, "thorough": 16},
     "race": {"quick": True, "thorough": True},
     "race_deciding": True,
     "timeout": {"quick": 900, "thorough": 3400},
-    "rule": "run c = generated index config + workload (single writer with 2..11 readers, or 2..15 writers with 0..7 readers) of ~1500 (quick) / 4000 (thorough) write operations on 4..24 ids plus concurrent Get/Len/Search; non-trivial = history of more than 100 operations; distinct = digest of the run description",
+    "rule": "run c = generated index config + workload (single writer with 2..11 readers, or 2..15 writers with 0..7 readers) of ~1500 (quick) / 4000 (thorough) write operations on 4..24 ids (c%5==4: 1..2 ids and ~400 operations) plus concurrent Get/Len/Search; c%10==9: 1500/6000 duels on an empty or one-item index; non-trivial = history of more than 100 operations or a completed duel series; distinct = digest of the run description",
     "assumptions": ["timestamps come from one monotonic clock at the caller boundary", "porcupine is trusted as the linearizability checker (60 s timeout => inconclusive)"],
-    "min": {"any": {"history_ops": 10000, "search_results_checked": 1000, "linearizable_histories": 4}},
+    "min": {"any": {"history_ops": 10000, "search_results_checked": 1000, "linearizable_histories": 4, "duels": 1000}},
 }
 
 CHECKS["C17"] = {
@@ -242,11 +242,11 @@ CHECKS["C18"] = {
     "pkg": "./c18", "run": "^TestC18$", "level": "exploration",
     "mem_gb": {"quick": 0, "thorough": 0},
     "technique": "runtime monitor: bounded progress of catalogue/membership calls on in-process real servers under join/remove/re-join bursts interleaved with create/delete, a restart replay, and membership churn behind a node-change handler that can never finish; a structural wait-for-cycle detector over goroutine dumps (same goroutines parked in the cycle for more than a minute) is the deciding criterion on a stall",
-    "level_text": "Real 3- and 4-node clusters in one process. Family A: under-replicated datasets are created (so the allocator itself proposes catalogue changes), then node 3 joins, is removed and re-joins 2-4 times while datasets are created and deleted concurrently from both other nodes, with scheduling noise at the allocator's lock/hand-over points; then a node with existing datasets is restarted (replay burst) and must answer List and apply a marker. Family B (one case in twelve): a replica that leads a two-replica partition group dies and is removed from the cluster, so the surviving replica's node-change handler waits for a leader that cannot be elected; node 4 then joins and leaves 6-8 times (12-16 notifications, more than the notification channel holds) and a catalogue entry created afterwards must be applied on both live members. A stall is a violation only if the goroutine dumps show one of the control plane's lock-and-channel wait-for cycles with every goroutine of the cycle parked in one uninterrupted wait for more than a minute (longer than every bounded wait of the control plane); any other stall is inconclusive.",
+    "level_text": "Real 3- and 4-node clusters in one process. Family A: under-replicated datasets are created (so the allocator itself proposes catalogue changes), then node 3 joins, is removed and re-joins 2-4 times while datasets are created and deleted concurrently from both other nodes, with scheduling noise at the allocator's lock/hand-over points; then a node with existing datasets is restarted (replay burst) and must answer List and apply a marker. Family B (one case in twelve): a replica that leads a two-replica partition group dies and is removed from the cluster, so the surviving replica's node-change handler waits for a leader that cannot be elected; node 4 then joins and leaves 6-8 times (12-16 notifications, more than the notification channel held) and a catalogue entry created afterwards must be applied on both live members. Family C (one case in twelve): the address book's notification contract on its own - 40 (quick) / 120 (thorough) seeded scripts of change bursts and single subscriber steps around the channel's capacity; a membership call parked in a channel send below the notification code while the subscriber is stalled is a violation, and every change must be delivered exactly once, in order. A stall in A/B is a violation only if the goroutine dumps show one of the control plane's lock-and-channel wait-for cycles with every goroutine of the cycle parked in one uninterrupted wait for more than a minute (longer than every bounded wait of the control plane), or a ready-loop goroutine parked that long inside an apply callback; any other stall is inconclusive.",
     "level_note": "Interleavings are sampled, not enumerated; wall clock only triggers the dump analysis, the verdict is structural. Cycles are recognised by frame names of the allocator, catalogue and address-book code; a wedge of a different shape is reported as inconclusive, not as a violation.",
     "shards": {"quick": 6, "thorough": 16},
     "timeout": {"quick": 1200, "thorough": 3400},
-    "rule": "case c: c%12==5 -> family B (churn behind a leaderless partition group: 6..8 join/leave cycles of node 4); otherwise family A = seeded burst (2..4 join/remove cycles of node 3, 10 catalogue operations, 2..4 under-replicated datasets) + restart of node 1 or 2; non-trivial = the scenario ran to the final marker; distinct = digest of the step list",
+    "rule": "case c: c%12==5 -> family B (churn behind a leaderless partition group: 6..8 join/leave cycles of node 4); c%12==11 -> family C (notification contract scripts); otherwise family A = seeded burst (2..4 join/remove cycles of node 3, 10 catalogue operations, 2..4 under-replicated datasets) + restart of node 1 or 2; non-trivial = the scenario ran to the final marker; distinct = digest of the step list",
     "assumptions": ["a goroutine dump taken in-process shows every server's goroutines; cycles are recognised by frame names", "every bounded wait in the control plane is shorter than a minute (proposal timeout 5 s, membership change 10 s)"],
     "min": {"any": {"progress_checks": 10, "restarts_completed": 2, "leaderless_group_histories": 1}},
 }
